@@ -22,7 +22,15 @@ from .. import child
 from .. import common as C
 from ..common import Corr, Violation, clist, cnat, cz
 
+# Gen/RelaySkel.v (statement trees of RunSession.run, relay_events, _monitor, Timer, wait_until_queue_empty, spawned.main) and
+# Gen/CallbackSkeleton.v (the coarser skeleton shared with C12) are regenerated from /repo on every run; Relay/Tie.v interprets
+# the trees under the labels of Relay/Model.v and proves the simulation (C10_tie_* in Props/C10.v).
+TRANSLATORS = ['relay_skeleton', 'callback_skeleton']
+
 TRUSTED_BASE = [
+    'translate/relay_skeleton.py (ast -> terms of Relay/Syntax.v; fail closed: an unrecognised statement that awaits, transfers control or '
+    'mentions a name the relay depends on aborts the translation) and translate/callback_skeleton.py; the meaning given to a label in '
+    'Relay/Tie.v (which await a label completes; the drain-loop pass is atomic; on_start_run call+return are one label)',
     'harness/relay_runner.py (Recorder plugin, scenario runner) and harness/child.py (in-process reference run of the same script)',
     'modelled, not verified: multiprocessing.Queue (feeder threads, pipe FIFO, write lock), asyncio.to_thread, the OS scheduler, '
     'ProcessPoolExecutor; the correspondence is trace inclusion: every observed log must be a run of the model',
